@@ -42,6 +42,27 @@ def rand_positions(rng, nside, n):
     return lon, lat, [int(p) for p in pix]
 
 
+def boundary_positions(rng, nside, n):
+    """(theta, phi) in radians EXACTLY on pixel boundaries (corners and edge points as hpgeom gives them) and at
+    pixel centres, with the pixel hpgeom assigns to those very floats — any detour through another unit
+    (degrees and back: seeded change C16g) moves some of them into the neighbouring pixel"""
+    npix = 12 * nside * nside
+    th, ph = [], []
+    for _ in range(n):
+        p = rng.randrange(npix)
+        if rng.random() < 0.75:
+            bt, bp = hpg.boundaries(nside, np.array([p]), step=rng.choice([1, 2]), lonlat=False)
+            j = rng.randrange(np.asarray(bt).size)
+            th.append(float(np.asarray(bt).ravel()[j]))
+            ph.append(float(np.asarray(bp).ravel()[j]))
+        else:
+            t, f = hpg.pixel_to_angle(nside, np.array([p]), lonlat=False)
+            th.append(float(t[0]))
+            ph.append(float(f[0]))
+    pix = hpg.angle_to_pixel(nside, np.array(th), np.array(ph), lonlat=False)
+    return th, ph, [int(p) for p in pix]
+
+
 def hist_dense(rng):
     covord = rng.choice([0, 0, 1])
     spord = covord + rng.choice([0, 1, 2])
@@ -54,8 +75,11 @@ def hist_dense(rng):
         uns = '-1637499999999999923489519697920' if kind == 'f8' else '-1637499996306027037830206717952'
         focus = rng.sample(range(12 * 4 ** covord), rng.randint(1, 3))
         nf = npix // (12 * 4 ** covord)
+        full_sky = rng.random() < 0.2         # every coverage pixel covered, blocks in ascending order
         for p in range(npix):
-            if p // nf in focus and rng.random() < 0.5:
+            if full_sky and (p % nf == 0 or rng.random() < 0.5):
+                vals.append(gen.dy(rng))
+            elif p // nf in focus and rng.random() < 0.5:
                 vals.append(gen.dy(rng))
             else:
                 vals.append(uns if rng.random() < 0.9 or sent == 'default' else sent)
@@ -74,9 +98,10 @@ def hist_dense(rng):
     if not nest:
         r2n = hpg.ring_to_nest(nside, np.arange(npix))
         ln += ' r2n=%s' % ','.join(map(str, r2n))
-    h = [ln, 'info m', 'state m', 'vals m', 'valid m', 'genhp m nest=1']
+    # (the exported array is the caller's: the harness scribbles over it, so the map is read again afterwards)
+    h = [ln, 'info m', 'state m', 'vals m', 'valid m', 'genhp m nest=1', 'vals m', 'valid m']
     n2r = hpg.nest_to_ring(nside, np.arange(npix))
-    h.append('genhp m nest=0 n2r=%s' % ','.join(map(str, n2r)))
+    h += ['genhp m nest=0 n2r=%s' % ','.join(map(str, n2r)), 'vals m']
     if spord > covord and rng.random() < 0.5:
         o = rng.randint(covord, spord - 1)
         n2ro = hpg.nest_to_ring(2 ** o, np.arange(12 * 4 ** o))
@@ -108,6 +133,10 @@ def hist_addressing(rng):
             lon, lat, pp = rand_positions(rng, nside, rng.choice([1, 3, 6]))
             h.append('get m pix=%s lon=%s lat=%s%s' % (','.join(map(str, pp)), ftxt(lon), ftxt(lat),
                                                        ' vm=1' if rng.random() < 0.3 else ''))
+        if rng.random() < 0.5:
+            th, ph, pp = boundary_positions(rng, nside, rng.choice([2, 4, 8]))
+            h.append('get m pix=%s lon=%s lat=%s lonlat=0%s' % (','.join(map(str, pp)), ftxt(th), ftxt(ph),
+                                                                ' vm=1' if rng.random() < 0.3 else ''))
         if rng.random() < 0.6:
             p = np.array(gen.rand_pixels(rng, c, n=rng.choice([1, 3, 6]), unique=False, focus=focus) or [0])
             h.append('get m pix=%s ring=%s%s' % (','.join(map(str, p)), ','.join(map(str, hpg.nest_to_ring(nside, p))),
